@@ -15,9 +15,10 @@ def run(tier, replay):
             jobs = [["crash", 1, 0, 1, 0, 1], ["crash", 2, 20, 2, 1, 1, "zt"], ["crash", 2, 40, 3, 2, 0, "zt"], ["crash", 2, 70, 4, 0, 1], ["crash", 1, 40, 0, 1, 0, "zt"], ["crash", 2, 70, 1, 2, 0],
                     ["crash", 1, 32, 1, 0, 1], ["crash", 2, 64, 2, 1, 0],
                     ["crash", 1, 40, 1, 0, 1, "zs"], ["crash", 2, 40, 2, 1, 0, "zx"], ["crash", 1, 20, 3, 2, 1, "zl"],
-                    ["crash", 2, 300, 1, 0, 1]]       # a file longer than 255 bytes (ten chunks, several hash windows)       # keys for which an interrupted state needs a tag with byte sum 0 / xor 0 / last byte 0       # inputs ending exactly on a chunk boundary (pad-only last chunk)
+                    ["crash", 2, 300, 1, 0, 1],
+                    ["crash", 4, 100, 2, 1, 1], ["crash", 4, 40, 3, 0, 0]]       # T = 4 (the CLI default): the IV table is a multiple of 16 bytes, so a block-aligned crash state can end exactly on a hash-window boundary       # a file longer than 255 bytes (ten chunks, several hash windows)       # keys for which an interrupted state needs a tag with byte sum 0 / xor 0 / last byte 0       # inputs ending exactly on a chunk boundary (pad-only last chunk)
         else:
-            jobs = [["crash", T, n, cm, (n // 10 + cm) % 3, u] + ([["zt"], ["zs"], ["zx"], ["zl"], []][(n // 4 + cm + T) % 5]) for T in (1, 2, 3) for n in (0, 16, 20, 32, 40, 64, 70, 100) for cm in range(5) for u in (0, 1)]
+            jobs = [["crash", T, n, cm, (n // 10 + cm) % 3, u] + ([["zt"], ["zs"], ["zx"], ["zl"], []][(n // 4 + cm + T) % 5]) for T in (1, 2, 3, 4) for n in (0, 16, 20, 32, 40, 64, 70, 100) for cm in range(5) for u in (0, 1)]
         events = fl.collect(res, PID, jobs)
     st, nfull = fl.judge(res, PID, events, full_sample=40 if tier == "quick" else 2000)
     ops = [e for e in events if e["e"] == "op"]
